@@ -22,10 +22,10 @@ def main():
     ids = sys.argv[1:] or sorted(d for d in os.listdir(SEEDED) if os.path.isdir(os.path.join(SEEDED, d)))
     idxp = os.path.join(SEEDED, 'INDEX.json')
     old = {e['id']: e for e in json.load(open(idxp))} if os.path.exists(idxp) else {}
-    for sid in ids:
+    def one(sid):
         pd = os.path.join(SEEDED, sid, 'patch.diff')
         if not os.path.exists(pd):
-            continue
+            return None
         prop = sid.split('-')[0]
         files = [l[6:].strip() for l in open(pd) if l.startswith('+++ b/')]
         pids = [prop] + [p for rx, p in EXTRA if any(re.search(rx, f) for f in files) and p != prop]
@@ -34,16 +34,24 @@ def main():
             _copy_sources(root)
             p = subprocess.run(['patch', '-p1', '-s', '-i', pd], cwd=root, capture_output=True, text=True)
             if p.returncode != 0:
-                print(sid, 'patch does not apply'); continue
+                print(sid, 'patch does not apply')
+                return None
             checks = {}
             for pid in pids:
                 rc, rules = run_check(pid, root)
                 checks[pid] = rules[0] if rc == 1 and rules else None
         finally:
             shutil.rmtree(root, ignore_errors=True)
-        old[sid] = dict(id=sid, property=prop, patch='seeded/%s/patch.diff' % sid, files=files, checks=checks,
-                        detected=any(checks.values()), first_run=INITIAL.get(sid, ''))
-        print(sid, checks)
+        print(sid, checks, flush=True)
+        return dict(id=sid, property=prop, patch='seeded/%s/patch.diff' % sid, files=files, checks=checks,
+                    detected=any(checks.values()), first_run=INITIAL.get(sid, ''))
+    from concurrent.futures import ThreadPoolExecutor
+    with ThreadPoolExecutor(int(os.environ.get('SEED_INDEX_JOBS', '8'))) as ex:
+        for e in ex.map(one, ids):
+            if e is not None:
+                old[e['id']] = e
+    missed = [k for k in sorted(old) if not old[k]['detected']]
+    print('seeds=%d detected=%d missed=%s' % (len(old), len(old) - len(missed), missed))
     json.dump([old[k] for k in sorted(old)], open(idxp, 'w'), indent=1)
 
 
